@@ -64,6 +64,7 @@ pub fn sim_spec() -> impl Strategy<Value = SimSpec> {
 			spawn_fail,
 			kill_fail,
 			signal_fail,
+			wait_fail: vec![],
 		})
 }
 
